@@ -13,9 +13,12 @@ import GocoinV.Proofs.C19Run3
 import GocoinV.Proofs.C19Hist
 import GocoinV.Proofs.C19Vol
 import GocoinV.Proofs.C19Lazy
+import GocoinV.Proofs.C19Lz
 import GocoinV.Gen.QdbFacts
 namespace GocoinV.Props.C19
 open GocoinV GocoinV.Qdb GocoinV.QdbSpec GocoinV.Proofs.C19
+
+variable {eg : Bool}
 
 /-- The constants and guard shapes the hand-written model uses are the ones that stand in the source RIGHT
     NOW (Gen/QdbFacts.lean is regenerated from lib/others/qdb on every run): flag bits, default options,
@@ -36,11 +39,11 @@ theorem model_matches_source_facts :
     fails (no os.Exit, no panic) and its content — keys, values and browsing flags — is exactly what the same
     sequence produces on the in-memory map `QdbSpec.mstep`; Get, Browse and Count after the sequence return
     what the map returns. (The file system never influences an observation in this sub-language.) -/
-theorem qdb_refines_map_partial (db : DB) (ops : List Op) (h : Cached db) (ok : ∀ op ∈ ops, OpOK op) :
+theorem qdb_refines_map_partial (db : DB) (ops : List Op) (h : Cached db) (ok : ∀ op ∈ ops, OpOK eg op) :
     (run db ops).failed = none ∧
     absv (run db ops) = mrun (absv db) ops ∧
     (∀ k, (Qdb.get (run db ops) k).2 = mget (mrun (absv db) ops) k) ∧
-    (∀ w, WalkOK w → (browse (run db ops) w).2 = mbrowseOut (mrun (absv db) ops)) ∧
+    (∀ w, WalkOK eg w → (browse (run db ops) w).2 = mbrowseOut (mrun (absv db) ops)) ∧
     count (run db ops) = mcount (mrun (absv db) ops) := by
   obtain ⟨hc, ha⟩ := run_cached ops db h ok
   refine ⟨hc.1, ha, ?_, ?_, ?_⟩
@@ -48,20 +51,19 @@ theorem qdb_refines_map_partial (db : DB) (ops : List Op) (h : Cached db) (ok : 
   · intro w hw; rw [← ha]; exact (browse_cached _ w hc hw).2.2
   · rw [← ha]; simp [count, mcount, absv]
 
--- OPEN: qdb_refines_map — the same statement for ALL operation sequences, i.e. including records that are not in
---   memory: NO_CACHE records (PutExt / ApplyFlags / walk results with NO_CACHE; `freerec` and sync() drop their data,
---   `loadrec` reads it back) and LoadData = false (every record is read back on first use). Needs the invariant
---   "every record without data in memory points into an existing <seq>.dat whose bytes [pos,pos+len) are the value,
---   and later writes only append" threaded through the fold lemmas of sync / defrag / Browse (all of which are
---   stated for in-memory records here). `Op.reopen` (both modes, LoadData) and crashes are covered by
---   qdb_refines_map_values_partial / qdb_durable_partial below at the level of values; the flag part of the
---   abstract state across a reopen is "whatever was persisted" (browse_after_history_partial).
---   NO_CACHE / LoadData=false are covered by the correspondence run only.
+-- OPEN: qdb_refines_map — the same statement for ALL operation sequences, i.e. including the NO_CACHE flag (PutExt /
+--   ApplyFlags / walk results with NO_CACHE: `freerec` and sync() drop the record's data, `loadrec` reads it back, and
+--   `load` skips such records). The flag is persisted in the index files, so a store that uses it cannot be twinned
+--   with one that does not without relating the two directories byte-wise (same files up to that bit in every
+--   record's flags field); that relation is not developed. Everything else of the op language is covered below at the
+--   level of values: `Op.reopen` in both modes, LoadData = false (qdb_lazy_history_partial), crashes
+--   (qdb_durable_partial); the flag part of the abstract state across a reopen is "whatever was persisted"
+--   (browse_after_history_partial). NO_CACHE is covered by the correspondence run only.
 
 /-- non-vacuity: a fresh store on an empty directory is cached, and a sequence with forced sync (MaxPending 0),
     overwrite, delete, NO_BROWSE flag, forced defrag is in the sub-language -/
 example : Cached (openDB {} false true { maxPending := 0 }) ∧
-    (∀ op ∈ [Op.put 1 [1, 2], .putExt 2 [3] NO_BROWSE, .put 1 [], .del 2, .defrag true, .sync, .get 1], OpOK op) := by
+    (∀ op ∈ [Op.put 1 [1, 2], .putExt 2 [3] NO_BROWSE, .put 1 [], .del 2, .defrag true, .sync, .get 1], OpOK eg op) := by
   constructor
   · exact ⟨by decide, by intro kr hkr; cases hkr⟩
   · intro op hop
@@ -116,7 +118,7 @@ theorem writedatfile_writes_complete_snapshot (db : DB) :
     The proof goes through the real file contents: data file layout written through bufio, index snapshot
     with trailer, removal of log / old snapshot / old data files, `loadneweridx`, `loaddat`, `loadlog`,
     `cleanupold` and `load`. -/
-theorem reopen_after_close_identity_partial (db : DB) (h : Cached db) (hwf : IndexWF db.index)
+theorem reopen_after_close_identity_partial (db : DB) (h : Cached db) (hwf : IndexWF eg db.index)
     (vol : Bool) (opts : Opts) :
     (db.volatile = false →
       (run db [.defrag true, .reopen vol true opts]).failed = none ∧
@@ -177,7 +179,7 @@ theorem reopen_after_close_identity_partial (db : DB) (h : Cached db) (hwf : Ind
     only grow", and "the other index slot is not a valid snapshot / holds the previous one; nothing on disk refers
     to a data-file number above the current one". -/
 theorem qdb_refines_map_values_partial (load : Bool) (opts : Opts) (ops : List Op)
-    (ok : ∀ op ∈ ops, OpOK2 op) (fits : RunFits2 (openDB {} false load opts) ops) :
+    (ok : ∀ op ∈ ops, OpOK2 eg op) (fits : RunFits2 (openDB {} false load opts) ops) :
     (run (openDB {} false load opts) ops).failed = none ∧
     (∀ k, (Qdb.get (run (openDB {} false load opts) ops) k).2 = vrun (fun _ => none) ops k) ∧
     (∀ k, mget (mrun [] ops) k = vrun (fun _ => none) ops k) ∧
@@ -207,7 +209,7 @@ theorem qdb_refines_map_values_partial (load : Bool) (opts : Opts) (ops : List O
 /-- Reopen identity, every history (snapshot AND log path): after any history as above, Close + NewDBExt
     (non-volatile, LoadData, any options) leaves every key with exactly the value it had. -/
 theorem reopen_after_close_identity_nonvolatile_partial (load : Bool) (opts : Opts) (ops : List Op)
-    (ok : ∀ op ∈ ops, OpOK2 op) (fits : RunFits2 (openDB {} false load opts) ops) (opts' : Opts)
+    (ok : ∀ op ∈ ops, OpOK2 eg op) (fits : RunFits2 (openDB {} false load opts) ops) (opts' : Opts)
     (hfit : OpFits2 (run (openDB {} false load opts) ops) (.reopen false true opts')) :
     (step (run (openDB {} false load opts) ops) (.reopen false true opts')).failed = none ∧
     ∀ k, vals (step (run (openDB {} false load opts) ops) (.reopen false true opts')) k =
@@ -221,7 +223,7 @@ theorem reopen_after_close_identity_nonvolatile_partial (load : Bool) (opts : Op
 example :
     let ops := [Op.put 1 [1, 2], .put 2 [], .put 1 [9], .del 2, .defrag true, .reopen false true {},
                 .putExt 3 [7] NO_BROWSE, .sync, .reopen false true { maxPending := 0 }, .put 2 [4]]
-    (∀ op ∈ ops, OpOK2 op) ∧ RunFits2 (openDB {} false true { maxPending := 0 }) ops := by
+    (∀ op ∈ ops, OpOK2 eg op) ∧ RunFits2 (openDB {} false true { maxPending := 0 }) ops := by
   refine ⟨?_, ?_⟩
   · intro op hop
     simp only [List.mem_cons, List.not_mem_nil, or_false] at hop
@@ -229,11 +231,11 @@ example :
   · simp only [RunFits2, OpFits2, OpFits, SizeOK]
     decide
 
--- OPEN: qdb_refines_map / reopen_after_close_identity in full: NO_CACHE records and LoadData = false (values are
---   read back lazily from the data files) — correspondence run only. Proved since the first pass: Browse after a
---   reopen (browse_after_history_partial), volatile stores across any number of reopens and mixed-mode histories
---   (qdb_durable_partial: its items (1)-(2) are the refinement statement for Get / Count, for histories that may
---   also contain crashes).
+-- OPEN: qdb_refines_map / reopen_after_close_identity in full: the NO_CACHE flag (see above) — correspondence run
+--   only. Proved since the first pass: Browse after a reopen (browse_after_history_partial), volatile stores across
+--   any number of reopens and mixed-mode histories (qdb_durable_partial: its items (1)-(2) are the refinement
+--   statement for Get / Count, for histories that may also contain crashes), LoadData = false in non-volatile mode
+--   for every history (qdb_lazy_history_partial).
 
 /-- Durability across a crash anywhere inside sync() / Close. Take any reachable state of a non-volatile store
     (empty directory, any cached-sub-language history, side conditions as above) with pending changes. sync()
@@ -247,7 +249,7 @@ example :
         the in-memory map (all pending changes became durable together);
     (c) the directory after the last operation is the one the model continues with. -/
 theorem qdb_durable_sync_partial (load : Bool) (opts : Opts) (ops : List Op)
-    (ok : ∀ op ∈ ops, OpOK2 op) (fits : RunFits2 (openDB {} false load opts) ops)
+    (ok : ∀ op ∈ ops, OpOK2 eg op) (fits : RunFits2 (openDB {} false load opts) ops)
     (hsz : SizeOK (run (openDB {} false load opts) ops))
     (hp : (run (openDB {} false load opts) ops).pending.isEmpty = false) (vol' : Bool) (opts' : Opts) :
     let db := run (openDB {} false load opts) ops
@@ -266,7 +268,7 @@ theorem qdb_durable_sync_partial (load : Bool) (opts : Opts) (ops : List Op)
     funext k; cases load <;> rfl
   rw [hv0] at hv
   have inv : DiskInv db := h3.inv
-  have hR0 : DirReadable db.fs := fun kr hkr => ⟨inv.dflags kr hkr, inv.dreads kr hkr⟩
+  have hR0 : DirReadable eg db.fs := fun kr hkr => ⟨inv.dflags kr hkr, inv.dreads kr hkr⟩
   obtain ⟨_, hold⟩ := open_readable db.fs hR0 vol' opts'
   obtain ⟨L, hL, invL, absL, pL, _, _, _, hfsL, _⟩ := sync_logWritten db inv hp hsz.1
   refine ⟨?_, ?_, L, hL, hfsL⟩
@@ -288,7 +290,7 @@ theorem qdb_durable_sync_partial (load : Bool) (opts : Opts) (ops : List Op)
 example :
     let ops := [Op.put 1 [1, 2], .put 2 [5], .sync, .reopen false true {}, .put 3 [], .put 1 [9, 9, 9], .del 2]
     let db := run (openDB {} false true {}) ops
-    (∀ op ∈ ops, OpOK2 op) ∧ RunFits2 (openDB {} false true {}) ops ∧ SizeOK db ∧ db.pending.isEmpty = false ∧
+    (∀ op ∈ ops, OpOK2 eg op) ∧ RunFits2 (openDB {} false true {}) ops ∧ SizeOK db ∧ db.pending.isEmpty = false ∧
     (syncEffs db).length = 5 := by
   refine ⟨?_, ?_, ?_, ?_, ?_⟩
   · intro op hop
@@ -312,7 +314,7 @@ example :
     defrag() — the last synced values — or the complete in-memory content. Never a mixture, never a value that
     was not written. -/
 theorem qdb_durable_defrag_partial (load : Bool) (opts : Opts) (ops : List Op)
-    (ok : ∀ op ∈ ops, OpOK2 op) (fits : RunFits2 (openDB {} false load opts) ops)
+    (ok : ∀ op ∈ ops, OpOK2 eg op) (fits : RunFits2 (openDB {} false load opts) ops)
     (hsz : SizeOK (run (openDB {} false load opts) ops))
     (hseq : (run (openDB {} false load opts) ops).dataSeq + 1 < 2^32)
     (hsmall : 16 + 24 * (run (openDB {} false load opts) ops).index.length ≤ bufSize)
@@ -348,8 +350,8 @@ theorem qdb_durable_defrag_partial (load : Bool) (opts : Opts) (ops : List Op)
     operations (`Model.Qdb.crashDir`: inside sync(), inside a forced or automatic defrag() incl. writedatfile() and
     cleanupold(), inside Close of either mode, inside the clean-up NewDBExt itself performs — removal of the older
     index file, of a discarded log, of unused data files), followed by ANY number of recovery attempts that die
-    inside NewDBExt after `ms` of its file operations (`recrash`), followed by a NewDBExt(non-volatile, LoadData, any
-    options) that completes; then the history goes on, with further crashes.
+    inside NewDBExt after `ms` of its file operations (`recrash`), followed by a NewDBExt(volatile or non-volatile,
+    LoadData, any options) that completes; then the history goes on, with further crashes.
     Start: NewDBExt(non-volatile) on an empty directory. Bounds (`HFits`): keys 64-bit, flags 32-bit, data file
     < 4 GiB, sequence numbers do not wrap (`OpFits3`, `maxSeq`), and at every item the index snapshot (16 + 24 bytes
     per record) is at most the 1 MiB bufio buffer, i.e. at most 43 689 records (`DFits`). Then:
@@ -366,7 +368,7 @@ theorem qdb_durable_defrag_partial (load : Bool) (opts : Opts) (ops : List Op)
     `loadlog` discards the log (empty log left between os.Create and the header write; previous version's log left
     by a crash in defrag). -/
 theorem qdb_durable_partial (load : Bool) (opts : Opts) (H : List HItem)
-    (ok : ∀ i ∈ H, HOK i) (fits : HFits (openDB {} false load opts) H) :
+    (ok : ∀ i ∈ H, HOK eg i) (fits : HFits (openDB {} false load opts) H) :
     let db := hrun (openDB {} false load opts) H
     db.failed = none ∧
     (∀ k, (Qdb.get db k).2 = vals db k) ∧
@@ -391,14 +393,14 @@ theorem qdb_durable_partial (load : Bool) (opts : Opts) (H : List HItem)
     · exact r
 
 /-- non-vacuity of qdb_durable_partial: a synced put, an overwrite, a crash inside Sync after 2 of its file
-    operations with one failed recovery attempt, more changes, a crash inside a forced defrag after 4 file operations,
-    a volatile session (reopen volatile, a change, Close = defrag, reopen non-volatile), a crash inside the NewDBExt
+    operations with one failed recovery attempt, more changes, a crash inside a forced defrag after 4 file operations
+    recovered in VOLATILE mode, a volatile session (reopen volatile, a change, Close = defrag, reopen non-volatile), a crash inside the NewDBExt
     of a Close+reopen (after all of Close's and one of NewDBExt's file operations) -/
 example :
-    let H := [HItem.op (.put 1 [1, 2]), .op .sync, .op (.put 1 [9]), .crash .sync 2 [1] {}, .op (.put 2 [4]),
-              .crash (.defrag true) 4 [] { maxPending := 0 }, .op (.reopen true true {}), .op (.put 3 [7]),
-              .op (.reopen false true {}), .op (.del 1), .crash (.reopen false true {}) 4 [0, 1] {}]
-    (∀ i ∈ H, HOK i) ∧ HFits (openDB {} false true {}) H := by
+    let H := [HItem.op (.put 1 [1, 2]), .op .sync, .op (.put 1 [9]), .crash .sync 2 [1] false {}, .op (.put 2 [4]),
+              .crash (.defrag true) 4 [] true { maxPending := 0 }, .op (.reopen true true {}), .op (.put 3 [7]),
+              .op (.reopen false true {}), .op (.del 1), .crash (.reopen false true {}) 4 [0, 1] false {}]
+    (∀ i ∈ H, HOK eg i) ∧ HFits (openDB {} false true {}) H := by
   refine ⟨?_, ?_⟩
   · intro i hi
     simp only [List.mem_cons, List.not_mem_nil, or_false] at hi
@@ -412,7 +414,7 @@ example :
     map's — and it shows every entry whose browsing flag in memory does not say NO_BROWSE. (Which flags a record
     carries after a reopen is decided by what was persisted with it: the flags at its last sync or defrag.) -/
 theorem browse_after_history_partial (load : Bool) (opts : Opts) (H : List HItem)
-    (ok : ∀ i ∈ H, HOK i) (fits : HFits (openDB {} false load opts) H) (w : List (Key × Nat)) (hw : WalkOK w) :
+    (ok : ∀ i ∈ H, HOK eg i) (fits : HFits (openDB {} false load opts) H) (w : List (Key × Nat)) (hw : WalkOK eg w) :
     let db := hrun (openDB {} false load opts) H
     (∀ kv ∈ (browse db w).2, vals db kv.1 = some kv.2) ∧
     (∀ k v f, ilookup k (absv db) = some (v, f) → hasFlag f NO_BROWSE = false → (k, v) ∈ (browse db w).2) := by
@@ -442,10 +444,10 @@ theorem browse_after_history_partial (load : Bool) (opts : Opts) (H : List HItem
     LoadData = FALSE: Close does not fail, the open does not fail and holds no record data in memory, and for EVERY
     key the first Get does not fail and returns exactly the in-memory map's value from before the Close — `loadrec`
     finds the data file and reads the record's bytes. (`lazy_open_get` states the same for every openable directory,
-    in particular for every crash directory. What is NOT proved is the continuation of a history on a store that
-    holds not-loaded records — see the OPEN notes.) -/
+    in particular for every crash directory, and in volatile mode too; the continuation of a history on a
+    non-volatile store that holds not-loaded records is qdb_lazy_history_partial.) -/
 theorem lazy_reopen_first_get_partial (load : Bool) (opts : Opts) (H : List HItem)
-    (ok : ∀ i ∈ H, HOK i) (fits : HFits (openDB {} false load opts) H)
+    (ok : ∀ i ∈ H, HOK eg i) (fits : HFits (openDB {} false load opts) H)
     (hs : SizeOK (hrun (openDB {} false load opts) H)) (hd : DFits (hrun (openDB {} false load opts) H))
     (vol' : Bool) (opts' : Opts) (k : Key) :
     let db := hrun (openDB {} false load opts) H
@@ -462,18 +464,72 @@ theorem lazy_reopen_first_get_partial (load : Bool) (opts : Opts) (H : List HIte
   obtain ⟨a, b, d⟩ := lazy_open_get (close db).fs vol' opts' c.ok k
   exact ⟨c.failed, a, b, d.trans (c.vals k)⟩
 
+/-- Lazily loaded records, EVERY history. Extend the sub-language of qdb_durable_partial by Close + NewDBExt with
+    LoadData = FALSE in non-volatile mode (`OpOK4`; still no NO_CACHE flag): records are then read from the data files
+    on first use (`loadrec` in Get, Browse, defrag), and a history may go on — more operations, syncs, automatic and
+    forced defrags, reopens of either kind and mode, crashes and recoveries — while some records are still not in
+    memory. Let `twin H` be the same history in which every NewDBExt loads the data at once, and let the bounds of
+    qdb_durable_partial hold along `twin H`. Then the lazily loading run `a` and the twin run `g` never part:
+    `a` never fails (no "file not found" exit in loadrec, no nil dereference in sync), both are in the SAME directory
+    and have performed the SAME file operations (hence every crash inside the lazily loading run leaves a directory
+    the twin run leaves too), Get of every key does not fail and returns the twin's map value, Browse shows what the
+    twin's Browse shows, Count agrees — and the twin run is a history of qdb_durable_partial, so the durable-map
+    specification holds for what `a` shows and for what the directory of `a` durably holds. -/
+theorem qdb_lazy_history_partial (load : Bool) (opts : Opts) (H : List HItem)
+    (ok : ∀ i ∈ H, OpOK4 eg (itemOp i)) (fits : HFits (openDB {} false load opts) (twin H)) :
+    let a := hrun (openDB {} false load opts) H
+    let g := hrun (openDB {} false load opts) (twin H)
+    a.failed = none ∧ a.fs = g.fs ∧ a.effs = g.effs ∧
+    (∀ k, (Qdb.get a k).1.failed = none ∧ (Qdb.get a k).2 = vals g k) ∧
+    (∀ w, WalkOK eg w → (browse a w).2 = (browse g w).2) ∧ count a = count g ∧
+    DurOK false (fun _ => none) (fun _ => none) (twin H) (vals g) (diskValue a.fs) := by
+  intro a g
+  have hT : Twin a g :=
+    twin_run H _ _ (Or.inl ⟨rfl, Or.inl (fresh_inv3 load opts)⟩) ok fits
+  obtain ⟨_, hd⟩ := hrun_dur (twin H) _ (Or.inl (fresh_inv3 load opts)) (hok_twin H ok) fits
+  have hv0 : vals (openDB {} false load opts) = fun _ => none := by
+    funext k; cases load <;> rfl
+  have hd0 : diskValue (openDB {} false load opts).fs = fun _ => none := by
+    funext k; cases load <;> rfl
+  have hm0 : (openDB {} false load opts).volatile = false := by cases load <;> rfl
+  rw [hv0, hd0, hm0] at hd
+  obtain ⟨o1, o2, o3⟩ := hT.observe
+  refine ⟨hT.failed, hT.fs, hT.effs, o1, o2, o3, ?_⟩
+  rw [hT.fs]
+  exact hd
+
+/-- non-vacuity of qdb_lazy_history_partial: records written, a lazy reopen (automatic sync at every change from
+    then on), a Get, an overwrite of a not-loaded record, a forced defrag with a not-loaded record, another lazy
+    reopen, a crash inside a Sync while records are not loaded, a lazy reopen after the recovery -/
+example :
+    let H := [HItem.op (.put 1 [1, 2]), .op (.put 2 [5]), .op (.reopen false false { maxPending := 0 }),
+              .op (.get 1), .op (.put 2 [6, 6]), .op (.defrag true), .op (.reopen false false {}),
+              .op (.put 1 [8]), .crash .sync 1 [] false {}, .op (.reopen false false {})]
+    (∀ i ∈ H, OpOK4 eg (itemOp i)) ∧ HFits (openDB {} false true {}) (twin H) := by
+  refine ⟨?_, ?_⟩
+  · intro i hi
+    simp only [List.mem_cons, List.not_mem_nil, or_false] at hi
+    rcases hi with rfl | rfl | rfl | rfl | rfl | rfl | rfl | rfl | rfl | rfl <;>
+      simp [itemOp, OpOK4, OpOK]
+  · show HFits (openDB {} false true {})
+      [HItem.op (.put 1 [1, 2]), .op (.put 2 [5]), .op (.reopen false true { maxPending := 0 }),
+       .op (.get 1), .op (.put 2 [6, 6]), .op (.defrag true), .op (.reopen false true {}),
+       .op (.put 1 [8]), .crash .sync 1 [] false {}, .op (.reopen false true {})]
+    simp only [HFits, OpFits3, OpFits, SizeOK, dFits_iff]
+    decide
+
 -- OPEN: qdb_durable in full — what is still missing for the statement of DESIGN §6: (i) index snapshots larger than
 --   the 1 MiB bufio buffer, i.e. more than 43 689 records (`DFits.small`; a chunk boundary could in principle fall so
 --   that a prefix of the snapshot ends in bytes that look like the FFFFFFFF-seq-FINI trailer — the data file has no
---   such bound: defrag's data writer is analysed for any number of chunks); (ii) NO_CACHE / not-loaded records
---   (LoadData = false); (iii) a recovery NewDBExt in VOLATILE mode directly after a crash (`HItem.crash` recovers
---   non-volatile; a volatile session may follow as `.op (.reopen true …)`); (iv) torn / reordered writes and power
---   loss (the crash model is process kill, see the manifest). Proved since the first pass: histories that continue
---   after a crash, crashes inside NewDBExt, volatile mode (qdb_durable_partial). (i)-(iii) are covered by the
---   harness only.
+--   such bound: defrag's data writer is analysed for any number of chunks); (ii) the NO_CACHE flag; LoadData = false
+--   in VOLATILE mode (non-volatile: qdb_lazy_history_partial); (iii) recovery attempts that themselves die
+--   (`recrash`) are modelled as non-volatile NewDBExt calls (the file operations of NewDBExt do not depend on the
+--   mode); (iv) torn / reordered writes and power loss (the crash model is process kill, see the manifest). Proved since
+--   the first pass: histories that continue after a crash, crashes inside NewDBExt, volatile mode, lazy loading.
+--   (i)-(iii) are covered by the harness only.
 
 /-- non-vacuity of reopen_after_close_identity_partial: a two-record store -/
-example : IndexWF [(1, (newRec [1, 2, 3] 0)), (2 ^ 64 - 1, (newRec [] NO_BROWSE))] := by
+example : IndexWF eg [(1, (newRec [1, 2, 3] 0)), (2 ^ 64 - 1, (newRec [] NO_BROWSE))] := by
   refine ⟨?_, ?_, by decide, by decide⟩
   · intro kr h
     simp only [List.mem_cons, List.not_mem_nil, or_false] at h
